@@ -73,7 +73,7 @@ theorem fieldSpans_leaves (types : List Elem) (fs : List FieldDef) :
   | cons f rest ih =>
     intro cur total sp h
     simp only [fieldSpans, bind, Except.bind] at h
-    simp only [fieldLeaves, bind, Except.bind]
+    simp only [fieldLeaves, storedOffset, bind, Except.bind]
     split at h
     · simp at h
     · rename_i pres hpres
